@@ -212,7 +212,14 @@ pub fn run_enum(prop: Prop, thorough: bool, threads: usize) -> (Stats, Option<Fo
                     let (n, start, len) = units[u];
                     let items = prop.enum_cases(n, start, len, thorough);
                     for (i, item) in items.iter().enumerate() {
-                        match exec_item(prop, item) {
+                        let res = match std::panic::catch_unwind(std::panic::AssertUnwindSafe(|| exec_item(prop, item))) {
+                            Ok(r) => r,
+                            Err(p) => {
+                                eprintln!("HARNESS-ERROR: the harness itself panicked on case {}: {}", item.case.to_json(), crate::interp::panic_msg(&p));
+                                std::process::exit(3);
+                            }
+                        };
+                        match res {
                             Ok(r) => {
                                 st.note(prop, item, &r.runs);
                                 st.digest = st.digest.wrapping_add(r.digest.wrapping_mul(case_hash(&item.case) | 1));
@@ -266,7 +273,14 @@ pub fn run_prop(prop: Prop, cases: u32, max_ops: usize, seed: u64, threads: usiz
                     if stop.load(Ordering::Relaxed) && !failed.get() {
                         return Ok(());
                     }
-                    match exec_replay(prop, &case) {
+                    let res = match std::panic::catch_unwind(std::panic::AssertUnwindSafe(|| exec_replay(prop, &case))) {
+                        Ok(r) => r,
+                        Err(p) => {
+                            eprintln!("HARNESS-ERROR: the harness itself panicked on case {}: {}", case.to_json(), crate::interp::panic_msg(&p));
+                            std::process::exit(3);
+                        }
+                    };
+                    match res {
                         Ok(flags) => {
                             if !failed.get() {
                                 let item = Item { case, kinds: vec![] };
